@@ -48,29 +48,23 @@ Qed.
 
 Definition len (r : bytes) : N := N.of_nat (length r).
 
-(* [o] is the announced length of a read that ran out of input (0 while the walk goes on) *)
-Definition InvO (cfg : ccfg) (o : N) (s : cst) : Prop :=
-  al s <= 2 * nread s + 2 * o /\
+(* the validator's part: builtArrayBuffer holds only bytes that were read; growth is geometric *)
+Definition InvV (cfg : ccfg) (s : cst) : Prop :=
   val s <= 5 * vcap s /\
   vcap s <= 2 * nread s /\
   vlen s <= nread s /\
   vwork s <= val s + nread s /\
   (rules_on cfg = false -> val s = 0).
 
-(* while the walk goes on: no overrun, and the validator's running total is within a positive limit *)
-Definition Inv (cfg : ccfg) (s : cst) : Prop :=
-  InvO cfg 0 s /\ (rules_on cfg = true -> 0 < max_array cfg -> atot s <= max_array cfg).
+(* the reader's part: never below the start size, at most twice what was read (or the
+   start size), total allocation at most 4 bytes per byte read, copies paid by allocations *)
+Definition InvR (s : cst) : Prop :=
+  cbeDecoderStartBufferSize <= buf s /\
+  buf s <= N.max cbeDecoderStartBufferSize (2 * nread s) /\
+  al s <= 4 * nread s /\
+  rwork s <= al s.
 
-(* what the code guarantees about an announced length, by the field that carried it *)
-Definition kb (cfg : ccfg) (k : rkind) (o : N) : Prop :=
-  match k with
-  | RNone => o = 0
-  | RFixed => o <= 240
-  | RUint => o <= 1024
-  | RIdent => o <= 100000
-  | RMedia => o <= 4294967295
-  | RChunk => rules_on cfg = true -> 0 < max_array cfg -> max_array cfg < 9223372036854775808 -> o <= max_array cfg
-  end.
+Definition Inv (cfg : ccfg) (s : cst) : Prop := InvR s /\ InvV cfg s.
 
 (* events gained minus bytes gained between two states *)
 Definition gain (s s' : cst) : Z :=
@@ -78,21 +72,22 @@ Definition gain (s s' : cst) : Z :=
 
 (* [good cfg eo ef m Q]: from a state satisfying the invariant, m either succeeds
    (invariant kept, bytes accounted for exactly, value satisfies Q, gain <= eo)
-   or fails (invariant with the overrun, bytes pulled <= bytes available, the
-   overrun obeys its field's limit, gain <= ef). *)
+   or fails (invariant kept, bytes pulled <= bytes available, gain <= ef). *)
 Definition good {A} (cfg : ccfg) (eo ef : Z) (m : M A) (Q : A -> Prop) : Prop :=
   forall s r, Inv cfg s ->
     match m s r with
     | ROk a s' r' => Inv cfg s' /\ nread s' + len r' = nread s + len r /\ Q a /\ (gain s s' <= eo)%Z
-    | RFail w o k s' => InvO cfg o s' /\ nread s' <= nread s + len r /\ kb cfg k o /\ (gain s s' <= ef)%Z
+    | RFail w s' => Inv cfg s' /\ nread s' <= nread s + len r /\ (gain s s' <= ef)%Z
     end.
+
+Ltac split3 := split; [|split].
 
 Lemma good_weaken {A} cfg eo ef eo' ef' (m : M A) (Q Q' : A -> Prop) :
   good cfg eo ef m Q -> (eo <= eo')%Z -> (ef <= ef')%Z -> (forall a, Q a -> Q' a) -> good cfg eo' ef' m Q'.
 Proof.
-  intros G Ho Hf HQ s r I. specialize (G s r I). destruct (m s r) as [a s' r'|w o k s'].
+  intros G Ho Hf HQ s r I. specialize (G s r I). destruct (m s r) as [a s' r'|w s'].
   - destruct G as (G1 & G2 & G3 & G4). split4; auto; lia.
-  - destruct G as (G1 & G2 & G3 & G4). split4; auto; lia.
+  - destruct G as (G1 & G2 & G4). split3; auto; lia.
 Qed.
 
 Lemma good_bind {A B} cfg eo1 ef1 eo2 ef2 eo ef (m : M A) (f : A -> M B) (Q1 : A -> Prop) (Q2 : B -> Prop) :
@@ -101,19 +96,19 @@ Lemma good_bind {A B} cfg eo1 ef1 eo2 ef2 eo ef (m : M A) (f : A -> M B) (Q1 : A
   good cfg eo ef (bind m f) Q2.
 Proof.
   intros G1 G2 H1 H2 H3 s r I. unfold bind. specialize (G1 s r I).
-  destruct (m s r) as [a s' r'|w o k s'].
+  destruct (m s r) as [a s' r'|w s'].
   - destruct G1 as (I' & N1 & Qa & E1). specialize (G2 a Qa s' r' I').
-    destruct (f a s' r') as [b s'' r''|w o k s''].
+    destruct (f a s' r') as [b s'' r''|w s''].
     + destruct G2 as (I'' & N2 & Qb & E2). unfold gain in *. split4; auto; lia.
-    + destruct G2 as (I'' & N2 & K & E2). unfold gain in *. split4; auto; lia.
-  - destruct G1 as (I' & N1 & K & E1). split4; auto; lia.
+    + destruct G2 as (I'' & N2 & E2). unfold gain in *. split3; auto; lia.
+  - destruct G1 as (I' & N1 & E1). split3; auto; lia.
 Qed.
 
 Lemma good_ret {A} cfg (a : A) : good cfg 0 0 (ret a) (fun x => x = a).
 Proof. intros s r I. cbn. unfold gain. split4; auto; lia. Qed.
 
 Lemma good_fail {A} cfg w (Q : A -> Prop) : good cfg 0 0 (fail w) Q.
-Proof. intros s r I. cbn. unfold gain. split4; [exact (proj1 I) | lia | reflexivity | lia]. Qed.
+Proof. intros s r I. cbn. unfold gain. split3; [exact I | lia | lia]. Qed.
 
 Lemma good_fail_any {A} cfg w eo ef (Q : A -> Prop) : (0 <= eo)%Z -> (0 <= ef)%Z -> good cfg eo ef (fail w) Q.
 Proof. intros. eapply good_weaken; [apply (good_fail cfg w Q) | lia | lia | auto]. Qed.
@@ -121,19 +116,19 @@ Proof. intros. eapply good_weaken; [apply (good_fail cfg w Q) | lia | lia | auto
 Lemma good_ret_any {A} cfg (a : A) eo ef : (0 <= eo)%Z -> (0 <= ef)%Z -> good cfg eo ef (ret a) (fun _ => True).
 Proof. intros. eapply good_weaken; [apply (good_ret cfg a) | lia | lia | auto]. Qed.
 
+Ltac unf :=
+  cbn [buf nread al rwork nev atot vcap vlen val vwork add_nread grow_buf add_nev set_atot set_v] in *.
+
 Ltac inv_tac :=
-  unfold Inv, InvO in *; cbn [buf nread al nev atot vcap vlen val vwork add_nread grow_buf add_nev set_atot set_v] in *;
-  intuition (try lia; try congruence).
+  unfold Inv, InvR, InvV in *; unf; intuition (try lia; try congruence).
 
-Lemma Inv_add_nread cfg o n s : InvO cfg o s -> InvO cfg o (add_nread n s).
-Proof. intro I. inv_tac. Qed.
-
-Lemma Inv_add_nread' cfg n s : Inv cfg s -> Inv cfg (add_nread n s).
+Lemma Inv_add_nread cfg n s : Inv cfg s -> Inv cfg (add_nread n s).
 Proof. intro I. inv_tac. Qed.
 
 Ltac easy4 :=
-  split4; try (unfold gain, len in *; cbn [add_nread add_nev grow_buf set_atot set_v nread nev length kb] in *;
-               first [assumption | reflexivity | exact Logic.I | match goal with H : Inv _ _ |- InvO _ _ _ => exact (proj1 H) end | lia]).
+  split4; try (unfold gain, len in *; unf; cbn [length] in *; first [assumption | reflexivity | exact Logic.I | lia]).
+Ltac easy3 :=
+  split3; try (unfold gain, len in *; unf; cbn [length] in *; first [assumption | reflexivity | exact Logic.I | lia]).
 
 Section Prims.
 Variable cfg : ccfg.
@@ -142,22 +137,22 @@ Variable stop : option N.
 Lemma good_take1 : good cfg (-1) 0 (take1 cfg) (fun _ => True).
 Proof.
   intros s r I. unfold take1, mark. destruct r as [|x r'].
-  - easy4.
-  - destruct (max_doc cfg <? nread (add_nread 1 s)); easy4; try (first [apply Inv_add_nread'; exact I | apply Inv_add_nread; exact (proj1 I)]).
+  - easy3.
+  - destruct (max_doc cfg <? nread (add_nread 1 s)); [easy3 | easy4]; apply Inv_add_nread; exact I.
 Qed.
 
 Lemma good_uleb_raw : good cfg (-1) 0 (uleb_raw cfg) (fun _ => True).
 Proof.
   intros s r; revert s. induction r as [|x r' IH]; intros s I; cbn [uleb_raw].
-  - easy4.
+  - easy3.
   - unfold mark. destruct (max_doc cfg <? nread (add_nread 1 s)).
-    + easy4; try (first [apply Inv_add_nread'; exact I | apply Inv_add_nread; exact (proj1 I)]).
+    + easy3. apply Inv_add_nread; exact I.
     + destruct (x <? 128).
-      * easy4; try (first [apply Inv_add_nread'; exact I | apply Inv_add_nread; exact (proj1 I)]).
-      * specialize (IH (add_nread 1 s) (Inv_add_nread' _ _ _ I)).
-        destruct (uleb_raw cfg (add_nread 1 s) r') as [[v n] s'' r''|w o k s''].
+      * easy4. apply Inv_add_nread; exact I.
+      * specialize (IH (add_nread 1 s) (Inv_add_nread _ _ _ I)).
+        destruct (uleb_raw cfg (add_nread 1 s) r') as [[v n] s'' r''|w s''].
         -- destruct IH as (I2 & N2 & _ & E2). easy4.
-        -- destruct IH as (I2 & N2 & K & E2). easy4.
+        -- destruct IH as (I2 & N2 & E2). easy3.
 Qed.
 
 Lemma good_read_uleb maxv : good cfg (-1) 0 (read_uleb cfg maxv) (fun v => v <= maxv).
@@ -173,48 +168,135 @@ Qed.
 Lemma len_skipn n (r : bytes) : n <= len r -> len (skipn (N.to_nat n) r) + n = len r.
 Proof. unfold len. intro H. rewrite skipn_length. lia. Qed.
 
-(* ReadBytes.  With [count <> 0] the success case gains at least one byte. *)
-Lemma good_read_buf k count : kb cfg k count ->
-  good cfg (if count =? 0 then 0 else -1) 0 (read_buf cfg k count) (fun _ => True).
+(* ---------------- the reader's fill loop (readIntoBuffer / growBuffer) ---------------- *)
+
+(* fields the reader does not touch *)
+Definition same_v (s s' : cst) : Prop :=
+  nev s' = nev s /\ atot s' = atot s /\ vcap s' = vcap s /\ vlen s' = vlen s /\ val s' = val s /\ vwork s' = vwork s.
+
+(* credit left from the last doubling: right after growBuffer the buffer is twice what this
+   call has read; its allocation is charged to the bytes this call has read and will read *)
+Definition credit (b f : N) : N := if b <=? 2 * f then 2 * b else 0.
+
+Lemma credit_mono b f f' : f <= f' -> credit b f <= credit b f'.
+Proof. unfold credit. intro H. destruct (N.leb_spec b (2 * f)); destruct (N.leb_spec b (2 * f')); lia. Qed.
+
+Lemma credit_le b f : credit b f <= 4 * f.
+Proof. unfold credit. destruct (N.leb_spec b (2 * f)); lia. Qed.
+
+Lemma fill_spec : forall fuel count filled s r,
+  InvV cfg s ->
+  cbeDecoderStartBufferSize <= buf s ->
+  buf s <= N.max cbeDecoderStartBufferSize (2 * nread s) ->
+  filled <= buf s -> filled <= nread s ->
+  al s + 4 * filled <= 4 * nread s + credit (buf s) filled ->
+  rwork s <= al s ->
+  match fill cfg fuel count filled s r with
+  | ROk _ s' r' => Inv cfg s' /\ nread s' + len r' = nread s + len r /\ same_v s s' /\
+                   (filled <= count -> nread s' + filled = nread s + count)
+  | RFail _ s' => Inv cfg s' /\ nread s' <= nread s + len r /\ nread s <= nread s' /\ nev s' = nev s
+  end.
 Proof.
-  intros K s r I. unfold read_buf.
-  assert (T : forall s1, nread s1 = nread s -> nev s1 = nev s -> atot s1 = atot s ->
-              InvO cfg count s1 -> (count = 0 -> InvO cfg 0 s1) ->
-              match (if count =? 0 then ROk tt s1 r
-                     else if count <=? N.of_nat (length r) then mark cfg count s1 (skipn (N.to_nat count) r)
-                     else if (0 <? N.of_nat (length r)) && (max_doc cfg <? nread (add_nread (N.of_nat (length r)) s1))
-                          then RFail WDocLimit count k (add_nread (N.of_nat (length r)) s1)
-                          else RFail WShort count k (add_nread (N.of_nat (length r)) s1)) with
-              | ROk a s' r' => Inv cfg s' /\ nread s' + len r' = nread s + len r /\ True /\
-                               (gain s s' <= (if (count =? 0)%N then 0 else -1))%Z
-              | RFail w o k0 s' => InvO cfg o s' /\ nread s' <= nread s + len r /\ kb cfg k0 o /\ (gain s s' <= 0)%Z
-              end).
-  { intros s1 Gn Ge Ga Gi G0.
-    destruct (N.eqb_spec count 0) as [Z|NZ].
-    - easy4. split; [exact (G0 Z)|]. rewrite Ga. exact (proj2 I).
-    - destruct (N.leb_spec count (N.of_nat (length r))) as [L|L].
-      + unfold mark. pose proof (len_skipn count r L) as SK.
-        destruct (max_doc cfg <? nread (add_nread count s1)).
-        * easy4. clear - Gi. inv_tac.
-        * easy4. split; [clear - Gi; inv_tac|]. cbn [add_nread atot]. rewrite Ga. exact (proj2 I).
-      + destruct ((0 <? N.of_nat (length r)) && (max_doc cfg <? nread (add_nread (N.of_nat (length r)) s1)));
-          easy4; apply Inv_add_nread; exact Gi. }
-  destruct (buf s <? count) eqn:Eb.
-  - destruct (go_max_alloc <? 2 * count).
-    + easy4.
-    + apply T; try reflexivity.
-      * clear - I. inv_tac.
-      * intros ->. apply N.ltb_lt in Eb. lia.
-  - apply T; try reflexivity.
-    + clear - I. inv_tac.
-    + intros _. exact (proj1 I).
+  induction fuel as [|f IH]; intros count filled s r V B0 B1 F1 F2 A W; cbn [fill].
+  { pose proof (credit_le (buf s) filled). split4; try lia; try reflexivity.
+    split; [unfold InvR; repeat split; lia | exact V]. }
+  destruct (N.leb_spec count filled) as [Done|More].
+  { pose proof (credit_le (buf s) filled).
+    split4; try lia.
+    - split; [unfold InvR; repeat split; lia | exact V].
+    - unfold same_v; repeat split; reflexivity. }
+  (* one more round: possibly grow, then one Read *)
+  assert (T : forall s1,
+             InvV cfg s1 -> same_v s s1 -> nread s1 = nread s ->
+             cbeDecoderStartBufferSize <= buf s1 -> buf s1 <= N.max cbeDecoderStartBufferSize (2 * nread s1) ->
+             filled <= buf s1 -> al s1 + 4 * filled <= 4 * nread s1 + credit (buf s1) filled -> rwork s1 <= al s1 ->
+             match (let space := N.min (buf s1) count - filled in
+                    let avail := N.of_nat (length r) in
+                    if avail =? 0 then RFail WShort s1
+                    else let n := N.min space avail in
+                         match mark cfg n s1 (skipn (N.to_nat n) r) with
+                         | ROk _ s2 r2 => fill cfg f count (filled + n) s2 r2
+                         | RFail w s2 => RFail w s2
+                         end) with
+             | ROk _ s' r' => Inv cfg s' /\ nread s' + len r' = nread s + len r /\ same_v s s' /\
+                              (filled <= count -> nread s' + filled = nread s + count)
+             | RFail _ s' => Inv cfg s' /\ nread s' <= nread s + len r /\ nread s <= nread s' /\ nev s' = nev s
+             end).
+  { intros s1 V1 SV N1 C0 C1 C2 C3 C4. cbv zeta.
+    pose proof (credit_le (buf s1) filled) as CL.
+    destruct (N.eqb_spec (N.of_nat (length r)) 0) as [E0|NE0].
+    { split4; try lia; [|destruct SV as (SV & _); exact SV].
+      split; [unfold InvR; repeat split; lia | exact V1]. }
+    set (n := N.min (N.min (buf s1) count - filled) (N.of_nat (length r))).
+    assert (Hn : n <= len r) by (unfold len; subst n; lia).
+    assert (Hs : filled + n <= buf s1 /\ filled + n <= count) by (subst n; lia).
+    unfold mark. pose proof (len_skipn n r Hn) as SK.
+    assert (I2 : Inv cfg (add_nread n s1)).
+    { split; [unfold InvR; unf; repeat split; lia | clear - V1; inv_tac]. }
+    destruct (max_doc cfg <? nread (add_nread n s1)).
+    { unf. split4; try lia; [exact I2 | destruct SV as (SV & _); exact SV]. }
+    assert (V2 : InvV cfg (add_nread n s1)) by (clear - V1; inv_tac).
+    pose proof (credit_mono (buf s1) filled (filled + n) ltac:(lia)) as CM.
+    specialize (IH count (filled + n) (add_nread n s1) (skipn (N.to_nat n) r) V2).
+    unf.
+    specialize (IH C0 ltac:(lia) ltac:(lia) ltac:(lia) ltac:(lia) C4).
+    destruct (fill cfg f count (filled + n) (add_nread n s1) (skipn (N.to_nat n) r)) as [u s' r'|w s'].
+    - destruct IH as (J1 & J2 & J3 & J4). unf. split4.
+      + exact J1.
+      + lia.
+      + unfold same_v in *. unf. intuition congruence.
+      + intros _. specialize (J4 ltac:(lia)). lia.
+    - destruct IH as (J1 & J2 & J3 & J4). unf. split4; try lia; [exact J1|].
+      destruct SV as (SV & _). congruence. }
+  destruct (N.eqb_spec filled (buf s)) as [Full|NotFull].
+  - (* growBuffer *)
+    set (n := N.min (N.max (2 * buf s) cbeDecoderStartBufferSize) (2 * count)).
+    assert (Hn : n = 2 * filled) by (subst n; lia).
+    destruct (go_max_alloc <? n).
+    { pose proof (credit_le (buf s) filled). split4; try lia; try reflexivity.
+      split; [unfold InvR; repeat split; lia | exact V]. }
+    assert (CR : al s + n + 4 * filled <= 4 * nread s + credit n filled).
+    { rewrite Hn. unfold credit in *. destruct (N.leb_spec (buf s) (2 * filled)); [|lia].
+      destruct (N.leb_spec (2 * filled) (2 * filled)); lia. }
+    apply T; unf;
+      [ clear - V; inv_tac | unfold same_v; unf; repeat split; reflexivity | reflexivity
+      | lia | lia | lia | exact CR | lia ].
+  - apply T;
+      [ exact V | unfold same_v; repeat split; reflexivity | reflexivity
+      | exact B0 | exact B1 | exact F1 | exact A | exact W ].
+Qed.
+
+(* ReadBytes.  With [count <> 0] the success case gains at least one byte. *)
+Lemma read_buf_spec count s r : Inv cfg s ->
+  match read_buf cfg count s r with
+  | ROk _ s' r' => Inv cfg s' /\ nread s' + len r' = nread s + len r /\ same_v s s' /\ nread s' = nread s + count
+  | RFail _ s' => Inv cfg s' /\ nread s' <= nread s + len r /\ nread s <= nread s' /\ nev s' = nev s
+  end.
+Proof.
+  intros ((B0 & B1 & A & W) & V). unfold read_buf.
+  pose proof (fill_spec (S (length r)) count 0 s r V B0 B1 ltac:(lia) ltac:(lia)) as G.
+  assert (C : al s + 4 * 0 <= 4 * nread s + credit (buf s) 0) by lia.
+  specialize (G C W).
+  destruct (fill cfg (S (length r)) count 0 s r) as [u s' r'|w s'].
+  - destruct G as (G1 & G2 & G3 & G4). split4; auto. specialize (G4 ltac:(lia)). lia.
+  - exact G.
+Qed.
+
+Lemma good_read_buf count :
+  good cfg (if count =? 0 then 0 else -1) 0 (read_buf cfg count) (fun _ => True).
+Proof.
+  intros s r I. pose proof (read_buf_spec count s r I) as G.
+  destruct (read_buf cfg count s r) as [u s' r'|w s'].
+  - destruct G as (G1 & G2 & (G3 & _) & G4). split4; auto. unfold gain.
+    destruct (N.eqb_spec count 0); lia.
+  - destruct G as (G1 & G2 & G3 & G4). split3; auto. unfold gain. lia.
 Qed.
 
 Lemma good_emit : good cfg 1 0 (emit stop) (fun _ => True).
 Proof.
   intros s r I. unfold emit.
   assert (A : Inv cfg (add_nev s)) by (clear - I; inv_tac).
-  destruct stop as [k|]; [destruct (nev s =? k)|]; easy4.
+  destruct stop as [k|]; [destruct (nev s =? k)|]; first [easy4 | easy3].
 Qed.
 
 Lemma good_rules_begin : good cfg 0 0 (rules_begin cfg) (fun _ => True).
@@ -223,109 +305,32 @@ Proof.
   clear - I R. inv_tac.
 Qed.
 
-(* facts about the generated tables used by the validator's chunk accounting *)
-Lemma stringlike_bits t : stringlike t = true -> element_bits t = 8.
+Lemma good_rules_chunk t count nb : good cfg 0 0 (rules_chunk cfg t count nb) (fun _ => True).
 Proof.
-  unfold stringlike. intro H.
-  repeat (apply orb_true_iff in H; destruct H as [H|H]); apply N.eqb_eq in H; subst t; reflexivity.
-Qed.
-
-Lemma elem_bytes_8_le count : elem_bytes 8 count <= count.
-Proof.
-  unfold elem_bytes, u64, two64. change (8 =? 1) with false. cbn [andb].
-  assert ((count * 8) mod 18446744073709551616 <= count * 8) by (apply N.mod_le; discriminate). lia.
-Qed.
-
-(* OnArrayChunk reaching the validator: when it lets a non-empty chunk through
-   under a positive limit below 2^63, the chunk's byte count is within the limit *)
-Lemma good_rules_chunk t count nb : count < 9223372036854775808 ->
-  nb = elem_bytes (element_bits t) count -> nb < 2305843009213693952 + 1 ->
-  good cfg 0 0 (rules_chunk cfg t count nb)
-       (fun _ => rules_on cfg = true -> 0 < max_array cfg -> max_array cfg < 9223372036854775808 -> count <> 0 -> nb <= max_array cfg).
-Proof.
-  intros HC HNB HB s r I. unfold rules_chunk.
-  destruct (N.lt_ge_cases (max_array cfg) 9223372036854775808) as [HM|HM].
-  2:{ (* a limit of 2^63 or more: nothing is claimed about the chunk *)
-      destruct (rules_on cfg && negb (count =? 0)); [|easy4; try (intros; lia)].
-      destruct ((max_array cfg <? _) && _) eqn:C.
-      - easy4; try (clear - I; inv_tac).
-      - easy4; try (intros; lia). split; [clear - I; inv_tac|]. intros _ P. cbn [set_atot atot].
-        apply andb_false_iff in C. destruct C as [C|C]; [apply N.ltb_ge in C; exact C | apply N.ltb_ge in C; lia]. }
-  destruct (rules_on cfg) eqn:R; cbn [andb].
-  2:{ easy4; try (intros; discriminate). }
-  destruct (N.eqb_spec count 0) as [Z|NZ]; cbn [negb].
-  { easy4; try (intros; contradiction). }
-  set (x := if stringlike t then count else nb).
-  assert (Hx : nb <= x /\ x < 9223372036854775808).
-  { subst x. destruct (stringlike t) eqn:S; [|lia].
-    split; [|exact HC]. rewrite HNB, (stringlike_bits t S). apply elem_bytes_8_le. }
-  destruct (N.ltb_spec 0 (max_array cfg)) as [P|P].
-  - assert (A : atot s <= max_array cfg) by (clear - I R P; inv_tac).
-    assert (U : u64 (atot s + x) = atot s + x).
-    { unfold u64, two64. apply N.mod_small. lia. }
-    rewrite U. destruct (N.ltb_spec (max_array cfg) (atot s + x)) as [B|B]; cbn [andb].
-    + easy4; try (clear - I; inv_tac).
-    + easy4; try (clear - I B; inv_tac); try (intros; lia).
-  - rewrite andb_false_r. easy4; try (clear - I P; inv_tac); try (intros; lia).
-Qed.
-
-Lemma read_buf_ok k n s r u s' r' :
-  read_buf cfg k n s r = ROk u s' r' -> nread s' = nread s + (if n =? 0 then 0 else n) /\ vlen s' = vlen s /\ vwork s' = vwork s /\ val s' = val s.
-Proof.
-  unfold read_buf.
-  assert (T : forall s1, nread s1 = nread s -> vlen s1 = vlen s -> vwork s1 = vwork s -> val s1 = val s ->
-     (if n =? 0 then ROk tt s1 r
-      else if n <=? N.of_nat (length r) then mark cfg n s1 (skipn (N.to_nat n) r)
-      else if (0 <? N.of_nat (length r)) && (max_doc cfg <? nread (add_nread (N.of_nat (length r)) s1))
-           then RFail WDocLimit n k (add_nread (N.of_nat (length r)) s1)
-           else RFail WShort n k (add_nread (N.of_nat (length r)) s1)) = ROk u s' r' ->
-     nread s' = nread s + (if n =? 0 then 0 else n) /\ vlen s' = vlen s /\ vwork s' = vwork s /\ val s' = val s).
-  { intros s1 A B C D. destruct (n =? 0).
-    - intro E; inversion E; subst. repeat split; try assumption; lia.
-    - destruct (n <=? N.of_nat (length r)).
-      + unfold mark. destruct (max_doc cfg <? nread (add_nread n s1)); intro E; inversion E; subst.
-        cbn [add_nread nread vlen vwork val]. repeat split; try assumption; lia.
-      + destruct (_ && _); discriminate. }
-  destruct (buf s <? n).
-  - destruct (go_max_alloc <? 2 * n); [discriminate|]. apply T; reflexivity.
-  - apply T; reflexivity.
+  intros s r I. unfold rules_chunk.
+  destruct (rules_on cfg && negb (count =? 0)); [|easy4].
+  destruct ((max_array cfg <? _) && _); [easy3 | easy4]; clear - I; inv_tac.
 Qed.
 
 (* ReadBytes of a chunk followed by OnArrayData reaching the validator *)
-Lemma good_read_data t nb : nb <> 0 -> kb cfg RChunk nb -> good cfg (-1) 0 (read_data cfg t nb) (fun _ => True).
+Lemma good_read_data t nb : nb <> 0 -> good cfg (-1) 0 (read_data cfg t nb) (fun _ => True).
 Proof.
-  intros NZ K s r I. unfold read_data, bind.
-  pose proof (good_read_buf RChunk nb K s r I) as G.
-  assert (E : (nb =? 0) = false) by (apply N.eqb_neq; exact NZ). rewrite E in G.
-  assert (X : match read_buf cfg RChunk nb s r with
-              | ROk _ s' _ => nread s + nb <= nread s' /\ vlen s' = vlen s /\ vwork s' = vwork s /\ val s' = val s
-              | RFail _ _ _ _ => True end).
-  { destruct (read_buf cfg RChunk nb s r) as [u s1 r1|] eqn:RB; [|exact Logic.I].
-    apply read_buf_ok in RB. rewrite E in RB. destruct RB as (A & B & C & D). repeat split; try assumption; lia. }
-  destruct (read_buf cfg RChunk nb s r) as [u s1 r1|w o k s1]; [|exact G].
-  destruct G as (I1 & N1 & _ & E1). destruct X as (X1 & X2 & X3 & X4).
+  intros NZ s r I. unfold read_data, bind.
+  pose proof (read_buf_spec nb s r I) as G.
+  destruct (read_buf cfg nb s r) as [u s1 r1|w s1].
+  2:{ destruct G as (G1 & G2 & G3 & G4). split3; auto. unfold gain. lia. }
+  destruct G as (I1 & N1 & (X0 & X5 & X6 & X2 & X4 & X3) & X1).
   assert (W : vwork s <= val s + nread s) by (clear - I; inv_tac).
+  assert (V : vlen s <= nread s) by (clear - I; inv_tac).
   unfold rules_data. destruct (rules_on cfg && stringlike t) eqn:RS.
-  2:{ easy4. }
+  2:{ split4; auto. unfold gain. lia. }
   apply andb_true_iff in RS. destruct RS as [R S].
   destruct (N.ltb_spec (vcap s1) (vlen s1 + nb)) as [L|L].
   - pose proof (go_grow_spec _ _ L) as (G1 & G2 & G3).
-    assert (V : vlen s <= nread s) by (clear - I; inv_tac).
-    easy4. clear - I1 G1 G2 G3 X1 X2 X3 X4 W V R. inv_tac; try congruence.
-  - assert (V : vlen s <= nread s) by (clear - I; inv_tac).
-    easy4. clear - I1 L X1 X2 X3 X4 W V R. inv_tac; try congruence.
-Qed.
-
-
-Lemma elem_bytes_0 w : elem_bytes w 0 = 0.
-Proof. unfold elem_bytes, u64. rewrite N.mul_0_l. change (0 mod two64) with 0. change (0 mod 8) with 0. change (0 / 8) with 0.
-  change (0 =? 0) with true. cbn [negb]. rewrite andb_false_r. reflexivity. Qed.
-
-Lemma elem_bytes_lt w c : elem_bytes w c < 2305843009213693952 + 1.
-Proof.
-  unfold elem_bytes, u64, two64.
-  assert ((c * w) mod 18446744073709551616 < 18446744073709551616) by (apply N.mod_lt; discriminate).
-  destruct ((w =? 1) && negb (c mod 8 =? 0)); lia.
+    split4; auto; [|unfold gain; unf; lia].
+    clear - I1 G1 G2 G3 X1 X2 X3 X4 W V R. inv_tac.
+  - split4; auto; [|unfold gain; unf; lia].
+    clear - I1 L X1 X2 X3 X4 W V R. inv_tac.
 Qed.
 
 Lemma good_chunks t : forall fuel, good cfg 0 0 (chunks cfg stop fuel t) (fun _ => True).
@@ -334,49 +339,45 @@ Proof.
   eapply good_bind with (eo1 := (-1)%Z) (ef1 := 0%Z) (eo2 := 1%Z) (ef2 := 1%Z); [apply good_read_uleb | | lia | lia | lia].
   intros h Hh. cbv beta.
   set (count := h / 2). set (nb := elem_bytes (element_bits t) count).
-  assert (HC : count < 9223372036854775808) by (subst count; unfold max_u64, two64 in Hh; lia).
   eapply good_bind with (eo1 := 0%Z) (ef1 := 0%Z) (eo2 := 1%Z) (ef2 := 1%Z);
-    [apply (good_rules_chunk t count nb HC eq_refl (elem_bytes_lt _ _)) | | lia | lia | lia].
-  intros u0 HQ.
+    [apply (good_rules_chunk t count nb) | | lia | lia | lia].
+  intros ? ?.
   eapply good_bind with (eo1 := 1%Z) (ef1 := 0%Z) (eo2 := 0%Z) (ef2 := 0%Z); [apply good_emit | | lia | lia | lia].
   intros ? ?.
   eapply good_bind with (eo1 := 0%Z) (ef1 := 0%Z) (eo2 := 0%Z) (ef2 := 0%Z) (Q1 := fun _ => True); [ | | lia | lia | lia].
   - destruct (N.eqb_spec nb 0) as [Z|NZ].
     + apply good_ret_any; lia.
-    + eapply good_bind with (eo1 := (-1)%Z) (ef1 := 0%Z) (eo2 := 1%Z) (ef2 := 0%Z); [apply good_read_data | | lia | lia | lia].
-      * exact NZ.
-      * cbn [kb]. intros R P HM. apply HQ; auto. intro Z. apply NZ. unfold nb. rewrite Z. apply elem_bytes_0.
-      * intros ? ?. apply good_emit.
+    + eapply good_bind with (eo1 := (-1)%Z) (ef1 := 0%Z) (eo2 := 1%Z) (ef2 := 0%Z); [apply good_read_data; exact NZ | | lia | lia | lia].
+      intros ? ?. apply good_emit.
   - intros ? ?. destruct (N.odd h); [exact IH|]. apply good_ret_any; lia.
 Qed.
 
 Lemma good_with_fuel {A} eo ef (f : nat -> M A) Q : (forall n, good cfg eo ef (f n) Q) -> good cfg eo ef (with_fuel f) Q.
 Proof. intros G s r I. unfold with_fuel. apply G. exact I. Qed.
 
-(* emit ;; rules_begin ;; chunks: the tail shared by decodeArray, decodeMedia and decodeCustomType *)
 Lemma good_array t : good cfg 1 1 (array cfg stop t) (fun _ => True).
 Proof.
   unfold array.
   eapply good_bind with (eo1 := 1%Z) (ef1 := 0%Z) (eo2 := 0%Z) (ef2 := 0%Z); [apply good_emit | | lia | lia | lia].
-  intros _ _.
+  intros ? ?.
   eapply good_bind with (eo1 := 0%Z) (ef1 := 0%Z) (eo2 := 0%Z) (ef2 := 0%Z); [apply good_rules_begin | | lia | lia | lia].
-  intros _ _. apply good_with_fuel. intro n. apply good_chunks.
+  intros ? ?. apply good_with_fuel. intro n. apply good_chunks.
 Qed.
+
+Lemma good_read_buf0 n : good cfg 0 0 (read_buf cfg n) (fun _ => True).
+Proof. eapply good_weaken; [apply (good_read_buf n) | | lia | trivial]. destruct (n =? 0); lia. Qed.
 
 Lemma good_media : good cfg 1 1 (media cfg stop) (fun _ => True).
 Proof.
   unfold media.
   eapply good_bind with (eo1 := (-1)%Z) (ef1 := 0%Z) (eo2 := 1%Z) (ef2 := 1%Z); [apply good_read_uleb | | lia | lia | lia].
   intros n Hn.
-  eapply good_bind with (eo1 := 0%Z) (ef1 := 0%Z) (eo2 := 1%Z) (ef2 := 1%Z) (Q1 := fun _ => True); [ | | lia | lia | lia].
-  - eapply good_weaken; [apply (good_read_buf RMedia n) | | lia | trivial].
-    + cbn [kb]. unfold media_type_max_length in Hn. lia.
-    + destruct (n =? 0); lia.
-  - intros _ _.
-    eapply good_bind with (eo1 := 1%Z) (ef1 := 0%Z) (eo2 := 0%Z) (ef2 := 0%Z); [apply good_emit | | lia | lia | lia].
-    intros _ _.
-    eapply good_bind with (eo1 := 0%Z) (ef1 := 0%Z) (eo2 := 0%Z) (ef2 := 0%Z); [apply good_rules_begin | | lia | lia | lia].
-    intros _ _. apply good_with_fuel. intro k. apply good_chunks.
+  eapply good_bind with (eo1 := 0%Z) (ef1 := 0%Z) (eo2 := 1%Z) (ef2 := 1%Z); [apply good_read_buf0 | | lia | lia | lia].
+  intros ? ?.
+  eapply good_bind with (eo1 := 1%Z) (ef1 := 0%Z) (eo2 := 0%Z) (ef2 := 0%Z); [apply good_emit | | lia | lia | lia].
+  intros ? ?.
+  eapply good_bind with (eo1 := 0%Z) (ef1 := 0%Z) (eo2 := 0%Z) (ef2 := 0%Z); [apply good_rules_begin | | lia | lia | lia].
+  intros ? ?. apply good_with_fuel. intro k. apply good_chunks.
 Qed.
 
 Lemma good_custom : good cfg 1 1 (custom cfg stop) (fun _ => True).
@@ -385,19 +386,16 @@ Proof.
   eapply good_bind with (eo1 := (-1)%Z) (ef1 := 0%Z) (eo2 := 1%Z) (ef2 := 1%Z); [apply good_read_uleb | | lia | lia | lia].
   intros n Hn.
   eapply good_bind with (eo1 := 1%Z) (ef1 := 0%Z) (eo2 := 0%Z) (ef2 := 0%Z); [apply good_emit | | lia | lia | lia].
-  intros _ _.
+  intros ? ?.
   eapply good_bind with (eo1 := 0%Z) (ef1 := 0%Z) (eo2 := 0%Z) (ef2 := 0%Z); [apply good_rules_begin | | lia | lia | lia].
-  intros _ _. apply good_with_fuel. intro k. apply good_chunks.
+  intros ? ?. apply good_with_fuel. intro k. apply good_chunks.
 Qed.
 
 Lemma good_ident : good cfg (-1) 0 (ident cfg) (fun _ => True).
 Proof.
   unfold ident.
   eapply good_bind with (eo1 := (-1)%Z) (ef1 := 0%Z) (eo2 := 0%Z) (ef2 := 0%Z); [apply good_read_uleb | | lia | lia | lia].
-  intros n Hn. destruct (n =? 0) eqn:E; [apply good_fail|].
-  eapply good_weaken; [apply (good_read_buf RIdent n) | | lia | trivial].
-  - cbn [kb]. unfold identifier_max_length in Hn. exact Hn.
-  - rewrite E. lia.
+  intros n Hn. destruct (n =? 0) eqn:E; [apply good_fail|]. apply good_read_buf0.
 Qed.
 
 Lemma good_decimal : good cfg (-1) 0 (decimal cfg) (fun _ => True).
@@ -410,56 +408,21 @@ Proof.
   destruct ((n =? 2)%nat && (f <? 4)); [apply good_ret_any; lia|].
   destruct (cf_max_encoded_exponent <? f); [apply good_fail|].
   eapply good_bind with (eo1 := (-1)%Z) (ef1 := 0%Z) (eo2 := 0%Z) (ef2 := 0%Z); [apply good_uleb_raw | | lia | lia | lia].
-  intros _ _. apply good_ret_any; lia.
+  intros ? ?. apply good_ret_any; lia.
 Qed.
 
 Variable ext : N -> bytes -> option nat.
 
 Lemma good_external ty : good cfg 0 0 (external cfg ext ty) (fun _ => True).
 Proof.
-  intros s r I. unfold external. destruct (ext ty r) as [n|]; [|easy4].
-  destruct (Nat.leb_spec n (length r)) as [L|L]; [|easy4].
+  intros s r I. unfold external. destruct (ext ty r) as [n|]; [|easy3].
+  destruct (Nat.leb_spec n (length r)) as [L|L]; [|easy3].
   unfold mark.
   assert (SK : len (skipn n r) + N.of_nat n = len r) by (unfold len; rewrite skipn_length; lia).
-  destruct (max_doc cfg <? nread (add_nread (N.of_nat n) s)); easy4;
-    first [apply Inv_add_nread'; exact I | apply Inv_add_nread; exact (proj1 I)].
+  destruct (max_doc cfg <? nread (add_nread (N.of_nat n) s)); [easy3 | easy4]; apply Inv_add_nread; exact I.
 Qed.
 
 End Prims.
-
-(* ------------------------------------------------------------------ *)
-(* Fixed-size payloads: finite sweep over the 256 type codes           *)
-(* ------------------------------------------------------------------ *)
-
-Definition fixed_ok (k : ckind) : bool := match k with CFixed n => n <=? 240 | _ => true end.
-
-Lemma classify_sweep : forallb (fun ty => fixed_ok (classify ty) && fixed_ok (classify7f ty)) (nseq 0 256) = true.
-Proof. vm_compute. reflexivity. Qed.
-
-Lemma in_nseq n : forall start x, start <= x -> x < start + N.of_nat n -> In x (nseq start n).
-Proof.
-  induction n as [|n IH]; intros start x L U; [lia|].
-  cbn [nseq]. destruct (N.eq_dec start x) as [E|NE]; [left; exact E|].
-  right. apply IH; lia.
-Qed.
-
-Lemma classify_fixed ty n : classify ty = CFixed n -> n <= 240.
-Proof.
-  intro E. destruct (N.lt_ge_cases ty 256) as [L|L].
-  - pose proof classify_sweep as S. rewrite forallb_forall in S.
-    specialize (S ty (in_nseq 256 0 ty (N.le_0_l _) L)). apply andb_true_iff in S. destruct S as [S _].
-    rewrite E in S. cbn [fixed_ok] in S. apply N.leb_le in S. exact S.
-  - unfold classify in E. destruct (N.leb_spec 256 ty); [discriminate | lia].
-Qed.
-
-Lemma classify7f_fixed ty n : classify7f ty = CFixed n -> n <= 240.
-Proof.
-  intro E. destruct (N.lt_ge_cases ty 256) as [L|L].
-  - pose proof classify_sweep as S. rewrite forallb_forall in S.
-    specialize (S ty (in_nseq 256 0 ty (N.le_0_l _) L)). apply andb_true_iff in S. destruct S as [_ S].
-    rewrite E in S. cbn [fixed_ok] in S. apply N.leb_le in S. exact S.
-  - unfold classify7f in E. destruct (N.leb_spec 256 ty); [discriminate | lia].
-Qed.
 
 Section Tokens.
 Variable cfg : ccfg.
@@ -475,26 +438,19 @@ Proof.
   intros ? ?. apply good_emit.
 Qed.
 
-Lemma good_fixed n : n <= 240 -> good cfg 1 1 (read_buf cfg RFixed n ;;; emit stop) (fun _ => True).
-Proof.
-  intro H. apply good_then_emit with (eo := 0%Z); [lia|].
-  eapply good_weaken; [apply (good_read_buf cfg RFixed n); exact H | | lia | trivial].
-  destruct (n =? 0); lia.
-Qed.
+Lemma good_fixed n : good cfg 1 1 (read_buf cfg n ;;; emit stop) (fun _ => True).
+Proof. apply good_then_emit with (eo := 0%Z); [lia | apply good_read_buf0]. Qed.
 
 Lemma good_plane7f : good cfg 1 1 (plane7f cfg stop) (fun _ => True).
 Proof.
   unfold plane7f.
   eapply good_bind with (eo1 := (-1)%Z) (ef1 := 0%Z) (eo2 := 1%Z) (ef2 := 1%Z); [apply good_take1 | | lia | lia | lia].
   intros ty _. destruct (classify7f ty) eqn:C; try (apply good_fail_any; lia).
-  - apply good_fixed. exact (classify7f_fixed _ _ C).
+  - apply good_fixed.
   - apply good_then_emit with (eo := (-1)%Z); [lia | apply good_ident].
   - apply good_array.
   - apply good_media.
 Qed.
-
-Lemma varint_limit : cbeMaxBigIntBitCount / 8 = 1024.
-Proof. reflexivity. Qed.
 
 Lemma good_token ty : good cfg 1 1 (token cfg ext stop ty) (fun _ => True).
 Proof.
@@ -503,13 +459,10 @@ Proof.
   - apply good_fail_any; lia.
   - apply good_then_emit with (eo := (-1)%Z); [lia | apply good_decimal].
   - eapply good_bind with (eo1 := (-1)%Z) (ef1 := 0%Z) (eo2 := 1%Z) (ef2 := 1%Z); [apply good_read_uleb | | lia | lia | lia].
-    intros n Hn. rewrite varint_limit in Hn.
-    apply good_then_emit with (eo := 0%Z); [lia|].
-    eapply good_weaken; [apply (good_read_buf cfg RUint n); exact Hn | | lia | trivial].
-    destruct (n =? 0); lia.
+    intros n Hn. apply good_fixed.
   - eapply good_bind with (eo1 := (-1)%Z) (ef1 := 0%Z) (eo2 := 1%Z) (ef2 := 0%Z); [apply good_take1 | | lia | lia | lia].
     intros ? ?. apply good_emit.
-  - apply good_fixed. exact (classify_fixed _ _ C).
+  - apply good_fixed.
   - apply good_then_emit with (eo := (-1)%Z); [lia | apply good_ident].
   - apply good_then_emit with (eo := 0%Z); [lia | apply good_external].
   - apply good_plane7f.
@@ -520,26 +473,26 @@ Qed.
 
 Lemma good_loop : forall fuel, good cfg 1 1 (loop cfg ext stop fuel) (fun _ => True).
 Proof.
+  assert (E : forall s, Inv cfg s ->
+             match emit stop s [] with
+             | ROk _ s' r' => Inv cfg s' /\ nread s' + len r' = nread s + len [] /\ True /\ (gain s s' <= 1)%Z
+             | RFail _ s' => Inv cfg s' /\ nread s' <= nread s + len [] /\ (gain s s' <= 1)%Z
+             end).
+  { intros s I. pose proof (good_emit cfg stop s [] I) as G.
+    destruct (emit stop s []) as [a s' r'|w s'].
+    - destruct G as (G1 & G2 & G3 & G4). split4; auto; lia.
+    - destruct G as (G1 & G2 & G4). split3; auto; lia. }
   induction fuel as [|f IH]; intros s r I.
-  - destruct r as [|x r].
-    + cbn [loop]. pose proof (good_emit cfg stop s [] I) as G.
-      destruct (emit stop s []) as [a s' r'|w o k s'].
-      * destruct G as (G1 & G2 & G3 & G4). split4; auto; lia.
-      * destruct G as (G1 & G2 & G3 & G4). split4; auto; lia.
-    + cbn [loop]. split4; [exact (proj1 I) | lia | reflexivity | unfold gain; lia].
-  - destruct r as [|x r].
-    + cbn [loop]. pose proof (good_emit cfg stop s [] I) as G.
-      destruct (emit stop s []) as [a s' r'|w o k s'].
-      * destruct G as (G1 & G2 & G3 & G4). split4; auto; lia.
-      * destruct G as (G1 & G2 & G3 & G4). split4; auto; lia.
-    + assert (G : good cfg 1 1 (ty <- take1 cfg ;; token cfg ext stop ty ;;; loop cfg ext stop f) (fun _ => True)).
-      { eapply good_bind with (eo1 := (-1)%Z) (ef1 := 0%Z) (eo2 := 2%Z) (ef2 := 2%Z); [apply good_take1 | | lia | lia | lia].
-        intros ty _.
-        eapply good_bind with (eo1 := 1%Z) (ef1 := 1%Z) (eo2 := 1%Z) (ef2 := 1%Z); [apply good_token | | lia | lia | lia].
-        intros ? ?. exact IH. }
-      exact (G s (x :: r) I).
+  - destruct r as [|x r]; cbn [loop]; [exact (E s I)|].
+    split3; [exact I | lia | unfold gain; lia].
+  - destruct r as [|x r]; [cbn [loop]; exact (E s I)|].
+    assert (G : good cfg 1 1 (ty <- take1 cfg ;; token cfg ext stop ty ;;; loop cfg ext stop f) (fun _ => True)).
+    { eapply good_bind with (eo1 := (-1)%Z) (ef1 := 0%Z) (eo2 := 2%Z) (ef2 := 2%Z); [apply good_take1 | | lia | lia | lia].
+      intros ty _.
+      eapply good_bind with (eo1 := 1%Z) (ef1 := 1%Z) (eo2 := 1%Z) (ef2 := 1%Z); [apply good_token | | lia | lia | lia].
+      intros ? ?. exact IH. }
+    exact (G s (x :: r) I).
 Qed.
-
 
 Lemma good_decode : good cfg 1 1 (decode cfg ext stop) (fun _ => True).
 Proof.
@@ -564,112 +517,66 @@ End Tokens.
 (* ------------------------------------------------------------------ *)
 
 Lemma Inv_st0 cfg : Inv cfg st0.
-Proof. unfold Inv, InvO, st0. cbn. repeat split; intros; try lia; reflexivity. Qed.
+Proof. unfold Inv, InvR, InvV, st0. cbn. repeat split; intros; try lia; reflexivity. Qed.
 
 (* everything the walk guarantees about its final state *)
 Lemma run_spec cfg ext stop d :
   let o := run cfg ext stop d in
-  InvO cfg (o_over o) (o_st o) /\ nread (o_st o) <= len d /\ kb cfg (o_kind o) (o_over o) /\
-  nev (o_st o) <= nread (o_st o) + 1.
+  Inv cfg (o_st o) /\ nread (o_st o) <= len d /\ nev (o_st o) <= nread (o_st o) + 1.
 Proof.
   unfold run. pose proof (good_decode cfg ext stop st0 d (Inv_st0 cfg)) as G.
-  destruct (decode cfg ext stop st0 d) as [a s r|w o k s]; cbn [o_over o_st o_kind].
-  - destruct G as (I & E & _ & Gn). unfold gain in Gn. cbn [st0 nread nev] in *.
-    split4; [exact (proj1 I) | lia | reflexivity | lia].
-  - destruct G as (I & E & K & Gn). unfold gain in Gn. cbn [st0 nread nev] in *.
-    split4; [exact I | lia | exact K | lia].
+  destruct (decode cfg ext stop st0 d) as [a s r|w s]; cbn [o_st].
+  - destruct G as (I & E & _ & Gn). unfold gain in Gn. cbn [st0 nread nev] in *. split3; [exact I | lia | lia].
+  - destruct G as (I & E & Gn). unfold gain in Gn. cbn [st0 nread nev] in *. split3; [exact I | lia | lia].
 Qed.
 
-(* The general inequality: reader + validator allocation is at most 12 bytes per
-   document byte, plus twice the one announced length (if any) that the input
-   could not satisfy. *)
-Lemma alloc_general cfg ext stop d :
-  alloc cfg ext stop d <= 12 * len d + 2 * o_over (run cfg ext stop d).
+(* reader buffers: at most 4 bytes allocated per document byte (buffers double as data arrives) *)
+Lemma reader_alloc_bound cfg ext stop d : al (o_st (run cfg ext stop d)) <= 4 * len d.
+Proof. destruct (run_spec cfg ext stop d) as (((_ & _ & A & _) & _) & L & _). lia. Qed.
+
+(* the buffer the decoder keeps afterwards: the start size, or at most twice the document *)
+Lemma reader_buffer_bound cfg ext stop d :
+  buf (o_st (run cfg ext stop d)) <= N.max cbeDecoderStartBufferSize (2 * len d).
+Proof. destruct (run_spec cfg ext stop d) as (((_ & B & _ & _) & _) & L & _). lia. Qed.
+
+(* the validator's builtArrayBuffer: at most 10 bytes allocated per document byte *)
+Lemma validator_alloc_bound cfg ext stop d : val (o_st (run cfg ext stop d)) <= 10 * len d.
+Proof. destruct (run_spec cfg ext stop d) as ((_ & (V1 & V2 & _)) & L & _). lia. Qed.
+
+(* THE BOUND: reader + validator allocation is at most 14 bytes per document byte, for every
+   configuration (validator or not, any limits), every document. *)
+Lemma alloc_bound cfg ext stop d : alloc cfg ext stop d <= 14 * len d.
 Proof.
-  unfold alloc. destruct (run_spec cfg ext stop d) as (I & L & _ & _).
-  unfold InvO in I. lia.
+  unfold alloc. pose proof (reader_alloc_bound cfg ext stop d). pose proof (validator_alloc_bound cfg ext stop d). lia.
 Qed.
 
-(* without a validator nothing is allocated besides reader buffers *)
-Lemma alloc_general_bare cfg ext stop d : rules_on cfg = false ->
-  alloc cfg ext stop d <= 2 * len d + 2 * o_over (run cfg ext stop d).
+Lemma alloc_bound_bare cfg ext stop d : rules_on cfg = false -> alloc cfg ext stop d <= 4 * len d.
 Proof.
-  intro R. unfold alloc. destruct (run_spec cfg ext stop d) as (I & L & _ & _).
-  unfold InvO in I. destruct I as (I1 & I2 & I3 & I4 & I5 & I6). rewrite (I6 R). lia.
+  intro R. unfold alloc. pose proof (reader_alloc_bound cfg ext stop d).
+  destruct (run_spec cfg ext stop d) as ((_ & (_ & _ & _ & _ & V5)) & _ & _). rewrite (V5 R). lia.
 Qed.
 
-(* the overrun, by the length field that announced it *)
-Lemma overrun_by_field cfg ext stop d :
-  let o := run cfg ext stop d in
-  match o_kind o with
-  | RNone => o_over o = 0
-  | RFixed => o_over o <= 240
-  | RUint => o_over o <= 1024
-  | RIdent => o_over o <= 100000
-  | RMedia => o_over o <= 4294967295
-  | RChunk => rules_on cfg = true -> 0 < max_array cfg -> max_array cfg < 9223372036854775808 -> o_over o <= max_array cfg
-  end.
-Proof. cbv zeta. destruct (run_spec cfg ext stop d) as (_ & _ & K & _). exact K. Qed.
-
-(* documents whose announced lengths are all present in the input *)
-Lemma alloc_bound_honest cfg ext stop d :
-  o_over (run cfg ext stop d) = 0 -> alloc cfg ext stop d <= 12 * len d.
-Proof. intro H. pose proof (alloc_general cfg ext stop d). lia. Qed.
-
-Lemma alloc_bound_accepted cfg ext stop d :
-  o_why (run cfg ext stop d) = None -> alloc cfg ext stop d <= 12 * len d.
-Proof.
-  intro H. apply alloc_bound_honest. unfold run in *.
-  destruct (decode cfg ext stop st0 d); [reflexivity | discriminate].
-Qed.
-
-(* validator in the pipeline with a positive limit: every length field except the media type *)
-Lemma alloc_bound_rules cfg ext stop d :
-  rules_on cfg = true -> 0 < max_array cfg -> max_array cfg < 9223372036854775808 ->
-  o_kind (run cfg ext stop d) <> RMedia ->
-  alloc cfg ext stop d <= 12 * len d + 2 * max_array cfg + 200000.
-Proof.
-  intros R P HM NM. pose proof (alloc_general cfg ext stop d) as G.
-  pose proof (overrun_by_field cfg ext stop d) as K. cbv zeta in K.
-  destruct (o_kind (run cfg ext stop d)); try contradiction; try (specialize (K R P HM)); lia.
-Qed.
-
-(* any pipeline: every length field except the media type and array chunks *)
-Lemma alloc_bound_bare cfg ext stop d :
-  o_kind (run cfg ext stop d) <> RMedia -> o_kind (run cfg ext stop d) <> RChunk ->
-  alloc cfg ext stop d <= 12 * len d + 200000.
-Proof.
-  intros NM NC. pose proof (alloc_general cfg ext stop d) as G.
-  pose proof (overrun_by_field cfg ext stop d) as K. cbv zeta in K.
-  destruct (o_kind (run cfg ext stop d)); try lia; contradiction.
-Qed.
+(* the property as stated (constants of the search oracle) *)
+Lemma alloc_full cfg ext stop d : alloc cfg ext stop d <= 64 * len d + 2 * max_array cfg + 1048576.
+Proof. pose proof (alloc_bound cfg ext stop d). lia. Qed.
 
 (* the decoder's own work is linear: every event is preceded by a byte of its own *)
 Lemma events_le_bytes cfg ext stop d :
   nev (o_st (run cfg ext stop d)) <= nread (o_st (run cfg ext stop d)) + 1.
-Proof. destruct (run_spec cfg ext stop d) as (_ & _ & _ & E). exact E. Qed.
+Proof. destruct (run_spec cfg ext stop d) as (_ & _ & E). exact E. Qed.
 
-Lemma steps_linear cfg ext stop d : steps cfg ext stop d <= 13 * len d + 1.
+Lemma steps_linear cfg ext stop d : steps cfg ext stop d <= 17 * len d + 1.
 Proof.
-  unfold steps. destruct (run_spec cfg ext stop d) as (I & L & _ & E).
-  unfold InvO in I. lia.
+  unfold steps. destruct (run_spec cfg ext stop d) as (((_ & _ & A & W) & (V1 & V2 & V3 & V4 & _)) & L & E). lia.
 Qed.
 
 (* time = own work + zero-filling of what was allocated *)
-Lemma time_general cfg ext stop d :
-  time cfg ext stop d <= 25 * len d + 1 + 2 * o_over (run cfg ext stop d).
-Proof. unfold time. pose proof (steps_linear cfg ext stop d). pose proof (alloc_general cfg ext stop d). lia. Qed.
+Lemma time_linear cfg ext stop d : time cfg ext stop d <= 31 * len d + 1.
+Proof. unfold time. pose proof (steps_linear cfg ext stop d). pose proof (alloc_bound cfg ext stop d). lia. Qed.
 
 (* ------------------------------------------------------------------ *)
-(* The full property and where the code violates it                     *)
+(* The documents that used to violate the bound                         *)
 (* ------------------------------------------------------------------ *)
-
-(* the bound of the property, with the constants the search oracle uses *)
-Definition alloc_bounded (cfg : ccfg) ext stop (d : bytes) : Prop :=
-  alloc cfg ext stop d <= 64 * len d + 2 * max_array cfg + 1048576.
-
-Definition time_bounded (cfg : ccfg) ext stop (d : bytes) : Prop :=
-  time cfg ext stop d <= 64 * len d + 2 * max_array cfg + 1048576.
 
 Definition cfg_1MiB (rules : bool) : ccfg :=
   {| rules_on := rules; max_array := 1048576; max_doc := cbeDefaultMaxDocumentSizeBytes |}.
@@ -681,57 +588,23 @@ Definition witness_media : bytes := [129; 0; 127; 243; 128; 128; 128; 128; 2].
 (* 81 00 | 7f f3 (media) | media type length 2^32-1 | nothing *)
 Definition witness_media_max : bytes := [129; 0; 127; 243; 255; 255; 255; 255; 15].
 
-Lemma witness_chunk_alloc : alloc (cfg_1MiB false) no_ext None witness_chunk = 2147483648
-  /\ o_kind (run (cfg_1MiB false) no_ext None witness_chunk) = RChunk.
-Proof. vm_compute. split; reflexivity. Qed.
-
-Lemma witness_media_alloc : alloc (cfg_1MiB true) no_ext None witness_media = 1073741824
-  /\ o_kind (run (cfg_1MiB true) no_ext None witness_media) = RMedia.
-Proof. vm_compute. split; reflexivity. Qed.
-
-Lemma witness_media_max_alloc : alloc (default_ccfg true) no_ext None witness_media_max = 8589934590.
-Proof. vm_compute. reflexivity. Qed.
-
-(* no validator: an 8-byte document makes the reader allocate 2 GiB *)
-Lemma alloc_refuted_bare : exists cfg ext stop d, rules_on cfg = false /\ ~ alloc_bounded cfg ext stop d.
-Proof.
-  exists (cfg_1MiB false), no_ext, None, witness_chunk. split; [reflexivity|].
-  unfold alloc_bounded. destruct witness_chunk_alloc as [E _]. rewrite E. vm_compute. intro H. apply H. reflexivity.
-Qed.
-
-(* validator present, 1 MiB limit: a 9-byte document makes the reader allocate 1 GiB for the media type *)
-Lemma alloc_refuted_media : exists cfg ext stop d, rules_on cfg = true /\ 0 < max_array cfg /\ ~ alloc_bounded cfg ext stop d.
-Proof.
-  exists (cfg_1MiB true), no_ext, None, witness_media. split; [reflexivity|]. split; [reflexivity|].
-  unfold alloc_bounded. destruct witness_media_alloc as [E _]. rewrite E. vm_compute. intro H. apply H. reflexivity.
-Qed.
-
-(* validator present, default 1 GiB limit: a 9-byte document asks for 8 GiB *)
-Lemma alloc_refuted_media_default : ~ alloc_bounded (default_ccfg true) no_ext None witness_media_max.
-Proof. unfold alloc_bounded. rewrite witness_media_max_alloc. vm_compute. intro H. apply H. reflexivity. Qed.
-
-Lemma time_refuted : exists cfg ext stop d, ~ time_bounded cfg ext stop d.
-Proof.
-  exists (cfg_1MiB false), no_ext, None, witness_chunk. unfold time_bounded.
-  vm_compute. intro H. apply H. reflexivity.
-Qed.
-
-(* Non-vacuity of the partial theorems: a chunk announced within the limit but
-   absent, under a validator: the overrun is the chunk's, the allocation is
-   twice the announced length, within the bound. *)
-Definition cfg_4KiB : ccfg := {| rules_on := true; max_array := 4096; max_doc := cbeDefaultMaxDocumentSizeBytes |}.
-(* 81 00 | 9a (list) | 93 (uint8 array) | header 8000 = 4000 elements, last | 'a' *)
-Definition example_short_chunk : bytes := [129; 0; 154; 147; 192; 62; 97].
-
-Lemma example_short_chunk_run :
-  let o := run cfg_4KiB no_ext None example_short_chunk in
-  o_kind o = RChunk /\ o_over o = 4000 /\ alloc cfg_4KiB no_ext None example_short_chunk = 8000.
+(* with the reader that grew its buffer to the announced length these allocated 2 GiB, 1 GiB
+   and 8 GiB; now nothing at all, and the decode ends in an error *)
+Lemma old_witnesses_now :
+  alloc (cfg_1MiB false) no_ext None witness_chunk = 0 /\
+  alloc (cfg_1MiB true) no_ext None witness_media = 0 /\
+  alloc (default_ccfg true) no_ext None witness_media_max = 0 /\
+  o_why (run (cfg_1MiB false) no_ext None witness_chunk) = Some WShort /\
+  o_why (run (cfg_1MiB true) no_ext None witness_media) = Some WShort.
 Proof. vm_compute. repeat split; reflexivity. Qed.
 
-(* an honest document: the constant 2 of the reader is attained (300-byte string: 600-byte buffer),
-   and the validator's copy adds its own 300 *)
-Definition example_honest : bytes := [129; 0; 144; 216; 4] ++ nrep 97 300.
+(* the constants of [alloc_bound] are not slack: a 1000-byte string makes the reader allocate
+   254 + 508 + 1016 = 1778 bytes (3 doublings), and a validator copies it once more *)
+Definition example_honest : bytes := [129; 0; 144; 208; 15] ++ nrep 97 1000.
 Lemma example_honest_run :
-  o_why (run cfg_4KiB no_ext None example_honest) = None /\
-  alloc cfg_4KiB no_ext None example_honest = 900 /\ steps cfg_4KiB no_ext None example_honest = 611.
+  o_why (run (cfg_1MiB true) no_ext None example_honest) = None /\
+  al (o_st (run (cfg_1MiB true) no_ext None example_honest)) = 1778 /\
+  buf (o_st (run (cfg_1MiB true) no_ext None example_honest)) = 1016 /\
+  alloc (cfg_1MiB true) no_ext None example_honest = 2778 /\
+  steps (cfg_1MiB true) no_ext None example_honest = 2900.
 Proof. vm_compute. repeat split; reflexivity. Qed.
